@@ -53,7 +53,7 @@ def keep_mask(rng, Eb):
     return k
 
 
-def build_inputs(rng, p, nb, sizes, k, N, hermitian, E):
+def build_inputs(rng, p, nb, sizes, k, N, hermitian, E, generic_zeroth=False):
     from pymablock.series import BlockSeries, zero
 
     ords = order_seq(k, N)
@@ -62,7 +62,10 @@ def build_inputs(rng, p, nb, sizes, k, N, hermitian, E):
         for i in range(nb):
             for j in range(nb):
                 if sum(n) == 0:
-                    if i != j:
+                    if i != j and generic_zeroth and not (hermitian and i > j) and rng.random() < 0.75:
+                        # the mini-language does not require a block-diagonal zeroth order
+                        table[(i, j, *n)] = GF.random(rng, sizes[i], sizes[j], p, hermitian=False)
+                    elif i != j:
                         table[(i, j, *n)] = zero
                     else:
                         d = sizes[i]
@@ -78,7 +81,7 @@ def build_inputs(rng, p, nb, sizes, k, N, hermitian, E):
                     table[(i, j, *n)] = GF.random(rng, sizes[i], sizes[j], p, hermitian=hermitian and i == j)
     if hermitian:
         for n in ords:
-            if sum(n) == 0:
+            if sum(n) == 0 and not generic_zeroth:
                 continue
             for i in range(nb):
                 for j in range(i):
@@ -166,7 +169,7 @@ def run_session(sid, seed, spec):
     for b in spec["masked"]:
         keeps[b] = keep_mask(rng, E[b])
     flags = dict(spec["flags"])
-    H, htab = build_inputs(rng, p, nb, sizes, k, N, hermitian, E)
+    H, htab = build_inputs(rng, p, nb, sizes, k, N, hermitian, E, generic_zeroth=spec.get("generic_zeroth", False))
     inp = "H" if algo_name in ("main", "nonhermitian") else "A"
     H.name = inp
     scope = make_scope(p, E, keeps, flags)
@@ -229,7 +232,7 @@ def run_session(sid, seed, spec):
                keep=[keeps[b].tolist() if b in keeps else [] for b in range(nb)],
                ords=[list(n) for n in ords], splits=splits, tab=tab, prog=prog, startmap=startmap, work=work)
     meta = dict(algo=algo_name, nb=nb, sizes=sizes, k=k, N=N, masked=spec["masked"], flags=spec["flags"],
-                hermitian=hermitian, cells=len(work))
+                hermitian=hermitian, generic_zeroth=spec.get("generic_zeroth", False), cells=len(work))
     return ses, meta
 
 
@@ -266,7 +269,8 @@ def specs_shipped(rng, n):
             flags = dict(two_block_optimized=False, commuting_blocks=[False] * nb)
         else:
             flags = dict(two_block_optimized=lib_two, commuting_blocks=[c and rng.random() < 0.5 for c in lib_comm])
-        out.append(dict(algo=algo, hermitian=herm, nb=nb, sizes=sizes, k=k, N=N, masked=masked, flags=flags))
+        out.append(dict(algo=algo, hermitian=herm, nb=nb, sizes=sizes, k=k, N=N, masked=masked, flags=flags,
+                        generic_zeroth=nb > 1 and q % 4 == 3))
     return out
 
 
